@@ -31,6 +31,12 @@ ASSUMPTIONS = [
 
 
 MUTANTS = [
+    ("polygon corners left in radians", "AegeanTools/regions.py",
+     "self.vec2sky(np.array(vectors), degrees=True):",
+     "self.vec2sky(np.array(vectors), degrees=False):", "C12-R8"),
+    ("MOCORDER written to the primary header", "AegeanTools/regions.py",
+     "        hdulist[1].header['MOCORDER'] = (",
+     "        hdulist[0].header['MOCORDER'] = (", "C12-R3"),
     ("longitude pinned to 0 within a tolerance of the poles",
      "AegeanTools/regions.py",
      "        dec = np.pi/2-theta\n\n        if degrees:",
@@ -239,6 +245,33 @@ def run(ctx):
                   bool(lits) and lits[0].strip() == "NUNIQ",
                   "ORDERING must be 'NUNIQ'; found %r" % lits,
                   node=hdr["ORDERING"])
+    # the MOC keywords describe the TABLE: they are stored in the header of
+    # the HDU that holds the pixel column (the one that was replaced)
+    tb_idx = {norm(st.targets[0].slice) for st in walk_no_nested(fi.node)
+              if isinstance(st, ast.Assign) and
+              isinstance(st.targets[0], ast.Subscript) and
+              isinstance(st.targets[0].slice, ast.Constant) and
+              isinstance(st.targets[0].slice.value, int)}
+    if len(tb_idx) == 1:
+        ti = tb_idx.pop()
+        wrong = []
+        for k, st in sorted(hdr.items()):
+            t = st.targets[0]
+            # hdulist[i].header[KEY]
+            base = t.value
+            idx = None
+            if isinstance(base, ast.Attribute) and base.attr == "header" \
+                    and isinstance(base.value, ast.Subscript):
+                idx = norm(base.value.slice)
+            if idx is not None and idx != ti:
+                wrong.append((k, idx))
+        ctx.check("C12-R3", fi, "MOC keywords stored in the header of the "
+                  "table HDU [%s] (%d keyword(s))" % (ti, len(hdr)),
+                  not wrong, "%s is written to the header of HDU %s, the "
+                  "pixel table is HDU %s: a MOC reader looks for the "
+                  "keywords next to the table" %
+                  (wrong[0] + (ti,) if wrong else ("", "", "")),
+                  node=hdr[wrong[0][0]] if wrong else fi.node)
     cols = [c for c in walk_no_nested(fi.node) if isinstance(c, ast.Call)
             and norm(c.func).endswith("Column")]
     ctx.floor("C12-R3", len(cols), 1, "fits.Column constructions")
@@ -384,6 +417,33 @@ def run(ctx):
                     floor=None if handmade else 1)
     # ---------------------------------------------------------------- R5
     pickle_rule(ctx, ci, "C12-R5")
+    # ---------------------------------------------------------------- R8
+    ctx.rule("C12-R8", "write_reg: the corner vectors are converted to "
+             "DEGREES (vec2sky(..., degrees=True)) for the SkyCoord built "
+             "with unit=degree, and the right ascension is divided by 15 "
+             "exactly once for the sexagesimal hours string")
+    wr = ci.methods.get("write_reg")
+    n8 = 0
+    for c in walk_no_nested(wr.node):
+        if isinstance(c, ast.Call) and isinstance(c.func, ast.Attribute) \
+                and c.func.attr == "vec2sky":
+            n8 += 1
+            dg = kwarg(c, "degrees")
+            if dg is None and len(c.args) > 1:
+                dg = c.args[1]
+            ctx.check("C12-R8", wr, "corner vectors converted to degrees: " +
+                      norm(c, 60), isinstance(dg, ast.Constant) and
+                      dg.value is True,
+                      "vec2sky returns radians unless degrees=True; the "
+                      "values are then read as degrees by SkyCoord(..., "
+                      "unit=degree): every polygon shrinks by 57.3 towards "
+                      "(0, 0)", node=c)
+    ctx.floor("C12-R8", n8, 1, "vec2sky calls in write_reg")
+    # whatever operations preceded the export: the set operations are the
+    # ones C08-R3 checks (union over the common and the deeper levels with
+    # the right divisor, the other operations at equal depth)
+    from .c08 import r3 as _setops
+    _setops(ctx, ci, rule="C12-R9")
     # ---------------------------------------------------------------- R7
     ctx.rule("C12-R7", "the polygon vertices written by write_reg are the "
              "pixel's corners: the vector -> sky conversion it goes through "
